@@ -171,7 +171,13 @@ def judge_c06(sc, gr):
         return [("C06/stray-exception", out.error, "a result or the no-solution error",
                  "solve() raised %s on a well-formed stopping game" % out.error)]
     if out.kind == "nosol":
+        computed = None
         if not must_fail and gr.prune and 0 < v0 <= sc.eps_reach():
+            # the signature of KF-C06-1 includes that the iteration itself ended with exactly 0 at state 0 (observed through the
+            # component seam without pruning); an error raised although the iteration computed a positive value is not that finding
+            so = Rn.solve_reach_seam(sc.game(gr.rewards), False)
+            computed = so.result[0][0] if so.kind == "ok" else None
+        if not must_fail and gr.prune and 0 < v0 <= sc.eps_reach() and computed == 0:
             # KF-C06-1: the exact value of the initial state is positive but not larger than the convergence tolerance, and the
             # iteration stopped (largest change <= threshold) before it propagated to state 0, which still reports exactly 0
             return [("KF-C06-1", out.error, "a complete result",
@@ -179,7 +185,8 @@ def judge_c06(sc, gr):
                      % (v0, float(v0), sc.eps_reach()))]
         if not must_fail:
             return [("C06/spurious-no-solution", out.error, "a complete result",
-                     "no-solution error although %s" % ("pruning is off" if not gr.prune else "the exact value of state 0 is %s" % v0))]
+                     "no-solution error although %s" % ("pruning is off" if not gr.prune else "the exact value of state 0 is %s%s"
+                                                        % (v0, "" if computed is None else " and the reachability iteration itself ends with %r there" % (computed,))))]
         return []
     if must_fail:
         return [("C06/missing-no-solution", "a result", "ValueError(no solution)",
